@@ -10,7 +10,7 @@ result = " ".join(l.strip() for l in open(log) if l.strip()) if os.path.exists(l
 d = "/verif/seeded/" + sid
 meta = {
     "id": sid, "breaks_property": prop, "change": change, "needs_to_manifest": needs, "author": author,
-    "confirmed": {"how": "scratch worktree of /repo HEAD (tools/confirm_seed.sh): demo.py on the clean tree (git stash), demo.py with the patch, full pytest suite with the patch",
+    "confirmed": {"how": "scratch worktree of /repo HEAD (tools/confirm_seed.sh): demo.py on the clean tree (git checkout -- src), demo.py with the patch, full pytest suite with the patch",
                   "result": result},
     "detected_by": det, "how_to_rerun": f"tools/try_patch.sh /verif/seeded/{sid}/patch.diff 0 <PROPERTY>",
 }
